@@ -108,7 +108,8 @@ SKIP_ATTRS = {
 class Snap:
     """snapshot of a problem: label -> {attribute -> normalised value}; label -> object"""
 
-    def __init__(self, problem, extra_roots=()):
+    def __init__(self, problem, extra_roots=(), probes=()):
+        self.probes = list(probes)      # numbers to look up in every collection, members or not
         self.data = {}
         self.objs = {}
         self._label = {}
@@ -244,6 +245,26 @@ class Snap:
                 v = getattr(o, n, None)
                 if v is not None and _is_problem_object(v):
                     out["(held) " + n] = ("ref", self._enqueue(v, lab + "." + n))
+        # look-ups by number, also for numbers that are not members (a rejected call must not leave an object
+        # behind that get(n) / [n] / a slice hands out): the numbers that appeared in the arguments of the calls so far
+        if self.probes and hasattr(type(o), "append_renumber") and hasattr(type(o), "get"):
+            looks = []
+            for n in self.probes:
+                row = [n]
+                try:
+                    row.append(self._norm(o.get(n), lab + ".get(%d)" % n))
+                except Exception as e:
+                    row.append(("raises", type(e).__name__))
+                try:
+                    row.append(self._norm(o[n], lab + ".get(%d)" % n))
+                except Exception as e:
+                    row.append(("raises", type(e).__name__))
+                try:
+                    row.append([self._norm(x, lab + ".get(%d)" % x.number) for x in o[n - 1:n + 2]])
+                except Exception as e:
+                    row.append(("raises", type(e).__name__))
+                looks.append(row)
+            out["get(n) [n] [n-1:n+2]"] = looks
         if type(o).__name__ == "CellDataPrintController":
             out["[key]"] = []
             for k in ("imp", "vol", "u", "lat", "fill"):
@@ -1413,6 +1434,7 @@ class Session:
             self.A = mp.read_problem(text, "c14.i")
             self.B = mp.read_problem(text, "c14.i")
         self.hA, self.hB = ED.Handles(self.A), ED.Handles(self.B)
+        self.probes = []
         self.snapA, self.snapB = Snap(self.A), Snap(self.B)
         self.steps = []
         self.pending = []                   # model requests of the traced calls
@@ -1433,6 +1455,28 @@ class Session:
         self.steps.append({"op": "edit", "edit": edit, "result": res[0]})
         if res[0] != res[1]:
             raise Desync(f"valid edit {edit} behaves differently on A and B: {res}")
+        if self.n_rejected:
+            self.edits_after_reject += 1
+        return res[0]
+
+    def apply_bynum(self, st):
+        """a valid edit that reaches its object THROUGH the collection, by number: renumber cell `orig` to `new`, look
+        the cell up again under its new number, give it a volume.  On both problems; the results must agree."""
+        res = []
+        for pr in (self.A, self.B):
+            try:
+                with warnings.catch_warnings():
+                    warnings.simplefilter("ignore")
+                    c = pr.cells[st["orig"]]
+                    c.number = st["new"]
+                    d = pr.cells[st["new"]]
+                    d.volume = st["volume"]
+                res.append("member" if any(d is x for x in pr.cells) else "NOT A MEMBER")
+            except Exception as e:
+                res.append(type(e).__name__)
+        self.steps.append(dict(st, result=res[0]))
+        if res[0] != res[1]:
+            raise Desync(f"by-number edit {st} behaves differently: with the rejected calls {res[0]}, control {res[1]}")
         if self.n_rejected:
             self.edits_after_reject += 1
         return res[0]
@@ -1464,8 +1508,29 @@ class Session:
                     exc = e2
         return exc, tr, vals
 
+    def note_numbers(self, spec):
+        """numbers that appear in an argument: probed in every collection by the snapshots that follow"""
+        if isinstance(spec, dict):
+            if spec.get("t") == "new" and isinstance(spec.get("number"), int):
+                self._probe(spec["number"])
+            if spec.get("t") == "lit" and isinstance(spec.get("v"), int) and not isinstance(spec.get("v"), bool) \
+                    and 0 < spec["v"] < 10 ** 8:
+                self._probe(spec["v"])
+            for v in spec.values():
+                self.note_numbers(v)
+        elif isinstance(spec, list):
+            for v in spec:
+                self.note_numbers(v)
+
+    def _probe(self, n):
+        if n in self.probes:
+            self.probes.remove(n)
+        self.probes.append(n)
+        del self.probes[:-6]
+
     def call(self, step, trace=True):
         """the call on A; when A accepts it, on B too.  -> class name of the exception or None"""
+        self.note_numbers(step.get("args"))
         latch = None
         if step["op"] == "call":
             e = self.env["E"][step["entry"]]
@@ -1513,7 +1578,7 @@ class Session:
     def compare(self, do_write=True):
         """-> None or a difference"""
         beforeA = self.snapA
-        self.snapA, self.snapB = Snap(self.A), Snap(self.B)
+        self.snapA, self.snapB = Snap(self.A, probes=self.probes), Snap(self.B, probes=self.probes)
         d = self.snapA.diff(self.snapB)
         if d:
             return {"kind": "attribute-reads", "diff": [list(x) for x in d]}
@@ -1536,6 +1601,8 @@ def replay_case(case, env, want_pending=False):
         for st in case["steps"]:
             if st["op"] == "edit":
                 ses.apply_edit(st["edit"])
+            elif st["op"] == "bynum":
+                ses.apply_bynum({k: v for k, v in st.items() if k != "result"})
             else:
                 ses.call({k: v for k, v in st.items() if k != "raised"}, trace=False)
             if not blind:
@@ -1553,7 +1620,10 @@ def replay_case(case, env, want_pending=False):
             return {"kind": "later-call", "diff": [str(e)]}, info
     for st in case.get("after", []):
         try:
-            ses.apply_edit(st["edit"])
+            if st["op"] == "bynum":
+                ses.apply_bynum({k: v for k, v in st.items() if k != "result"})
+            else:
+                ses.apply_edit(st["edit"])
         except Desync as e:
             return {"kind": "later-edit", "diff": [str(e)]}, info
     return ses.compare(), info
@@ -1722,6 +1792,26 @@ def one_round(ctx, env, rng, sched, stats, failures, seen_fail, deadline):
             if time.time() > deadline:
                 break
             stats.n["steps"] += 1
+            if ses.n_rejected and ses.probes and rng.random() < 0.08:
+                members = [c.number for c in ses.A.cells]
+                free = [n for n in ses.probes if n not in members]
+                if members and free:
+                    try:
+                        ses.apply_bynum({"op": "bynum", "orig": rng.choice(members), "new": rng.choice(free),
+                                         "volume": rng.choice([42.5, 7.0, 0.125])})
+                    except Desync as e:
+                        _report_later(ctx, env, ses, {"kind": "later-edit", "diff": [str(e)]}, failures, seen_fail, stats, blind=blind)
+                        return ses
+                    stats.n["edits"] += 1
+                    stats.n["by_number_edits"] = stats.n.get("by_number_edits", 0) + 1
+                    if not blind:
+                        d = ses.compare(do_write=True)
+                        stats.n["comparisons"] += 1
+                        stats.n["later_comparisons"] += 1
+                        if d is not None:
+                            _report_later(ctx, env, ses, d, failures, seen_fail, stats)
+                            return ses
+                    continue
             if rng.random() < 0.25:
                 try:
                     prog = ED.gen_program(rng, meta, n=1)
@@ -1786,7 +1876,7 @@ def one_round(ctx, env, rng, sched, stats, failures, seen_fail, deadline):
             ctx.count_case((step["entry"], step["cls"], [spec_kind(a) for a in step["args"]], name), nontrivial=name is not None)
             if name is None:
                 if not blind:
-                    ses.snapA, ses.snapB = Snap(ses.A), Snap(ses.B)     # labels of new members
+                    ses.snapA, ses.snapB = Snap(ses.A, probes=ses.probes), Snap(ses.B, probes=ses.probes)     # labels of new members
                 continue
             if blind:
                 continue
@@ -1841,7 +1931,7 @@ def _report_later(ctx, env, ses, d, failures, seen_fail, stats, blind=False):
     idx = [i for i, s in enumerate(steps) if s["op"] != "edit" and s.get("raised")]
     for i in idx:
         case = {"text": ses.text, "blind": blind, "steps": steps[:i], "call": steps[i],
-                "after": [s for s in steps[i + 1:] if s["op"] == "edit"]}
+                "after": [s for s in steps[i + 1:] if s["op"] in ("edit", "bynum")]}
         try:
             dd, _ = replay_case(case, env)
         except Exception:
@@ -1851,7 +1941,7 @@ def _report_later(ctx, env, ses, d, failures, seen_fail, stats, blind=False):
             return
     if idx:
         case = {"text": ses.text, "blind": blind, "steps": steps[:idx[-1]], "call": steps[idx[-1]],
-                "after": [s for s in steps[idx[-1] + 1:] if s["op"] == "edit"], "note": "not reproduced by any single rejected call"}
+                "after": [s for s in steps[idx[-1] + 1:] if s["op"] in ("edit", "bynum")], "note": "not reproduced by any single rejected call"}
         _report(ctx, env, case, d, failures, seen_fail)
 
 
